@@ -52,8 +52,22 @@ def parse_vcf(text, names_expected):
     return contig, names, recs
 
 
-def drive(a, rng):
-    kind = rng.choice(["id", "id", "half"])
+BIG = 2 ** 40          # the "big" coordinate map: positions beyond 2**31 (a genome longer than 2.1e9, or a scaling transform)
+
+
+def descale(v, plus1):
+    """POS / contig length written for a big-coordinate case, back on the abstract grid (TLC integers are 32 bit); a value that is not
+    exactly the image of a grid point is a token nothing equals"""
+    if v == MALFORMED:
+        return v
+    w = v - 1 if plus1 else v
+    if w % BIG:
+        return MALFORMED
+    return w // BIG + (1 if plus1 else 0)
+
+
+def drive(a, rng, kind=None):
+    kind = kind or rng.choice(["id", "id", "half"])
     cmap = gen.CMap(kind)
     tmap = gen.random_maps(rng)[1]
     tables = gen.build_tables(a, cmap, tmap)
@@ -86,13 +100,15 @@ def drive(a, rng):
         args["individuals"] = inds
         kw["individuals"] = inds if rng.random() < 0.5 else np.array(inds)
     tr = rng.choice(["round", "round", "legacy", "plus1"])
+    if kind == "big" and tr == "legacy":
+        tr = "round"        # 'legacy' moves position 0 to 1, which does not commute with the scaling
     args["transform"] = tr
     if tr == "legacy":
         kw["position_transform"] = "legacy"
     elif tr == "plus1":
         # the same transform written the ways a caller may write it: through numpy functions (accept anything), with plain arithmetic on the
         # argument (the form write_vcf's own error message recommends; equals 1 + round(x) when the positions are integers) and with array methods
-        forms = ["np", "method"] + (["arith"] if all(float(x) == int(x) for x in ts.tables.sites.position) and float(ts.sequence_length) == int(ts.sequence_length) else [])
+        forms = ["np", "method"] + (["arith"] if kind != "big" and all(float(x) == int(x) for x in ts.tables.sites.position) and float(ts.sequence_length) == int(ts.sequence_length) else [])
         form = rng.choice(forms)
         args["transform_form"] = form
         kw["position_transform"] = {"np": lambda x: 1 + np.round(x), "arith": lambda x: 1 + x, "method": lambda x: x.round() + 1}[form]
@@ -121,14 +137,17 @@ def finish(ts, args, kw, cmap, rng, a):
     return case
 
 
-def run_case(a, rng):
-    ts, args, kw, cmap = drive(a, rng)
+def run_case(a, rng, kind=None):
+    ts, args, kw, cmap = drive(a, rng, kind)
     case = dict(args=args)
     # sites: the genotype definition needs the cell of each site; VCF needs the doubled position
     case["ts"] = dict(L=a["L"], L2=int(round(2 * ts.sequence_length)), time=a["time"], flags=a["flags"], edges=a["edges"],
                       sites=[dict(pos=s["pos"], anc=s["anc"]) for s in a["sites"]], muts=a["muts"],
                       ind=[int(x) for x in ts.nodes_individual], ind_rows=list(range(ts.num_individuals)))
     case["pos2"] = [int(round(2 * float(s.position))) for s in ts.sites()]
+    if kind == "big":
+        case["pos2"] = [2 * s["pos"] for s in a["sites"]]
+        case["ts"]["L2"] = 2 * a["L"]
     args["pos2"] = case["pos2"]
     # sample mask: needs the number of flattened samples; obtain it from a first run without sample mask
     out = io.StringIO()
@@ -170,6 +189,11 @@ def run_case(a, rng):
             if ts.as_vcf(**kw) != out.getvalue():
                 case["raised"] = 1
                 case["error"] = "as_vcf differs from write_vcf"
+            if kind == "big":
+                p1 = args["transform"] == "plus1"
+                for r in recs:
+                    r["pos"] = descale(r["pos"], p1)
+                contig = descale(contig, p1)
             case["records"] = recs
             case["contig_length"] = contig
             case["names"] = [int(n[4:]) if n.startswith("tsk_") else int(n[1:]) for n in names]
@@ -192,6 +216,15 @@ def run():
         c = run_case(a, rng)
         # the VCF positions are on the doubled grid: replace the site positions used for POS
         c["ts"]["sites"] = [dict(pos=s["pos"], anc=s["anc"]) for s in c["ts"]["sites"]]
+        cases.append(c)
+    # coordinates beyond 2**31: positions on the 2**40 grid, written back onto the abstract grid before TLC sees them
+    for i in range(250 if QUICK else 5000):
+        a = gen.random_abstract(rng, N=rng.randint(2, 6), K=rng.randint(2, 6), max_edges=10, nsites=4, nmuts=3, nalleles=4)
+        if sum(a["flags"]) == 0 or not a["sites"]:
+            continue
+        c = run_case(a, rng, kind="big")
+        c["ts"]["sites"] = [dict(pos=s["pos"], anc=s["anc"]) for s in c["ts"]["sites"]]
+        c["big"] = 1
         cases.append(c)
     # many-allele sites: 8, 9 (the most a VCF record can hold) and 10 alleles (must raise), with and without an isolated (missing) sample
     for i in range(60 if QUICK else 3000):
